@@ -199,7 +199,7 @@ fn execute(d: &Datum, u: &Unit, horizon: usize, decide: &mut dyn FnMut(usize, &[
 				}
 			}
 			SinkAnswer::Interrupted => c.interrupts += 1,
-			SinkAnswer::HardError | SinkAnswer::Zero => {
+			SinkAnswer::HardError | SinkAnswer::WouldBlock | SinkAnswer::Zero => {
 				let len_at_fault = c.accepted;
 				let atomic = vectored && c.flush.0 == c.flush.1;
 				if c.faults.len() < 64 {
@@ -552,6 +552,7 @@ fn answer_name(a: SinkAnswer) -> &'static str {
 	match a {
 		SinkAnswer::Interrupted => "interrupted",
 		SinkAnswer::HardError => "hard_error",
+		SinkAnswer::WouldBlock => "would_block",
 		SinkAnswer::Zero => "ok0",
 		_ => "other",
 	}
@@ -561,6 +562,7 @@ fn answer_parse(s: &str) -> Option<SinkAnswer> {
 	Some(match s {
 		"interrupted" => SinkAnswer::Interrupted,
 		"hard_error" => SinkAnswer::HardError,
+		"would_block" => SinkAnswer::WouldBlock,
 		"ok0" => SinkAnswer::Zero,
 		_ => return None,
 	})
@@ -671,7 +673,7 @@ fn run_unit(d: &Datum, u: &Unit, budget: usize, max_leaves: u64, inject_ks: &[us
 		if inject_ks.contains(&k) && learned_calls[k - 1] < horizon {
 			// every call index the regular execution reaches
 			for j in 0..learned_calls[k - 1] {
-				for a in [SinkAnswer::Interrupted, SinkAnswer::HardError, SinkAnswer::Zero] {
+				for a in [SinkAnswer::Interrupted, SinkAnswer::HardError, SinkAnswer::WouldBlock, SinkAnswer::Zero] {
 					if u.sticky && a == SinkAnswer::Interrupted {
 						continue;
 					}
@@ -710,7 +712,7 @@ pub fn run(rep: &mut Report) {
 	let max_leaves: u64 = if thorough { 3_000_000 } else { 300_000 };
 	let inject_ks: Vec<usize> = if thorough { vec![1, 2, 3, 5, 16, 40] } else { vec![1, 3, 16] };
 	rep.rule = format!(
-		"ENV: units = writer histories {:?} (datum 'record' = schema {}, datum 'null' = schema \"null\" with zero-byte values; sync marker pinned) x codecs {:?} x (transient | permanent) sink faults. Per unit: (1) every execution with <= {budget} deviations (thorough: <= {budget}+1 for the codecs null and deflate), a deviation point being every write/write_vectored call the execution actually makes on the harness-owned sink (default: accept everything; deviations from envs::sink_menu: accept k in {{1, 2, |first slice|, |first slice|+1, |first two|, |first two|+1, total-1}}, Interrupted, hard error, Ok(0)); (2) the regular sinks accepting k bytes per call for k = 1..=40, and for k in {:?} additionally with Interrupted / hard error / Ok(0) injected at every call index the regular execution reaches. Oracle: no hard error / Ok(0) injected => every writer call returns what it returns on Vec<u8> and the sink ends up with exactly the Vec<u8> run's bytes; hard error / Ok(0) during a call => that call returns Err (not Ok, not a panic; build with debug assertions) and the bytes the sink held when it reported the fault are a prefix of the Vec<u8> run's; a fault that hits the explicit `drop` is not judged (a destructor cannot return an error). Fault-then-continue (transient fault mode): when the fault refused a block flush atomically (the sink had accepted nothing of that flush) and the call returned Err with the writer still alive, the sink is healthy again and the history goes on (later calls are deviation points again); every later call that returns Ok is judged by C15's invariant on the sink contents at that point (vmodel cf_parse + decode per datum: valid file; its values are a prefix, in order, of the values handed over, where a value whose call returned Err because of the sink fault may or may not be present and a value that does not match the schema never; after an Ok finish_block / into_inner / drop every value whose call returned Ok is present); later calls that return Err are not judged, a panic is a violation. In every other case (part of the flush already accepted, permanent fault mode, fault during build / into_inner) the history stops after the failing call: the stream state after such an error is unspecified. Non-trivial: executions with at least one deviation, distinct on (unit, choice vector); every regular-sink execution.",
+		"ENV: units = writer histories {:?} (datum 'record' = schema {}, datum 'null' = schema \"null\" with zero-byte values; sync marker pinned) x codecs {:?} x (transient | permanent) sink faults. Per unit: (1) every execution with <= {budget} deviations (thorough: <= {budget}+1 for the codecs null and deflate), a deviation point being every write/write_vectored call the execution actually makes on the harness-owned sink (default: accept everything; deviations from envs::sink_menu: accept k in {{1, 2, |first slice|, |first slice|+1, |first two|, |first two|+1, total-1}}, Interrupted, hard error of kind Other, hard error of kind WouldBlock, Ok(0)); (2) the regular sinks accepting k bytes per call for k = 1..=40, and for k in {:?} additionally with Interrupted / hard error (Other, WouldBlock) / Ok(0) injected at every call index the regular execution reaches. Oracle: no hard error / Ok(0) injected => every writer call returns what it returns on Vec<u8> and the sink ends up with exactly the Vec<u8> run's bytes; hard error / Ok(0) during a call => that call returns Err (not Ok, not a panic; build with debug assertions) and the bytes the sink held when it reported the fault are a prefix of the Vec<u8> run's; a fault that hits the explicit `drop` is not judged (a destructor cannot return an error). Fault-then-continue (transient fault mode): when the fault refused a block flush atomically (the sink had accepted nothing of that flush) and the call returned Err with the writer still alive, the sink is healthy again and the history goes on (later calls are deviation points again); every later call that returns Ok is judged by C15's invariant on the sink contents at that point (vmodel cf_parse + decode per datum: valid file; its values are a prefix, in order, of the values handed over, where a value whose call returned Err because of the sink fault may or may not be present and a value that does not match the schema never; after an Ok finish_block / into_inner / drop every value whose call returned Ok is present); later calls that return Err are not judged, a panic is a violation. In every other case (part of the flush already accepted, permanent fault mode, fault during build / into_inner) the history stops after the failing call: the stream state after such an error is unspecified. Non-trivial: executions with at least one deviation, distinct on (unit, choice vector); every regular-sink execution.",
 		histories(&ds).iter().map(|h| format!("{} = {:?} @ approx_block_size {}, datum {}", h.id, cfw::hist_names(&h.ops), h.block_size, ds[h.datum].id)).collect::<Vec<_>>(),
 		ds[0].schema_text,
 		if thorough { &cfw::CODECS_ALL[..] } else { &cfw::CODECS_QUICK[..] },
